@@ -203,6 +203,31 @@ pub fn run(rep: &mut Report, tier: &str)
         }
     }
 
+    // 1b. lengths around larger plausible block sizes (a block-wise reader with a block of 512 .. 64 KiB)
+    let mut big_lens: Vec<usize> = vec![];
+    for k in [512usize, 1024, 2048, 4096, 8192, 16384, 32768, 65536]
+    {
+        for d in [-1i64, 0, 1] { big_lens.push((k as i64 + d) as usize); big_lens.push((2 * k as i64 + d) as usize); }
+        big_lens.push(k + k / 2);
+    }
+    big_lens.sort();
+    big_lens.dedup();
+    for len in &big_lens
+    {
+        let data = fill(1, *len);
+        let want = refsha::encode62(&refsha::sha256(&data));
+        distinct_hashes.insert(want.clone());
+        for ch in [None, Some(4096usize), Some(4097)]
+        {
+            evals += 1;
+            match ruler_hash_of_file(&data, ch, "big", 7)
+            {
+                Ok(got) => if got != want { bad.add("file hash differs from SHA-256 of its bytes", format!("length {} read-chunk {:?}: {} vs {}", len, ch, got, want)); },
+                Err(e) => bad.add("hashing a file failed", format!("length {} read-chunk {:?}: {}", len, ch, e)),
+            }
+        }
+    }
+
     // 2. text form: encode -> decode identity and agreement with the independent base-62
     let mut values: Vec<[u8; 32]> = vec![[0u8; 32], [0xff; 32]];
     for pos in 0..32 { for b in [1u8, 0x7f, 0x80, 0xff] { let mut v = [0u8; 32]; v[pos] = b; values.push(v); } }
@@ -324,11 +349,12 @@ pub fn run(rep: &mut Report, tier: &str)
         let valid = refsha::encode62(&refsha::sha256(b"valid"));
         for pos in 0..43
         {
-            for c in ["-", "_", ".", "/", " ", "%", "+", "=", "\u{e9}", "\u{0}", "~", "\\"]
+            let mut foreign: Vec<char> = (0u8..128).map(|b| b as char).filter(|c| !c.is_ascii_alphanumeric()).collect();
+            foreign.push('\u{e9}');
+            for c in foreign
             {
                 let mut s: Vec<char> = valid.chars().collect();
-                let cs: Vec<char> = c.chars().collect();
-                s[pos] = cs[0];
+                s[pos] = c;
                 let s: String = s.into_iter().collect();
                 evals += 1;
                 match std::panic::catch_unwind(|| Ticket::from_human_readable(&s).is_ok())
@@ -393,7 +419,7 @@ pub fn run(rep: &mut Report, tier: &str)
     rep.set("transitions", json!(evals));
     rep.set("traces_validated_against_impl", json!(evals));
     rep.set("distinct_nontrivial", json!(distinct_hashes.len()));
-    rep.set("file_lengths", json!(format!("0..={} x 3 fill patterns x read-chunk sizes {:?}", max_len, chunks)));
+    rep.set("file_lengths", json!(format!("0..={} x 3 fill patterns x read-chunk sizes {:?}; plus {} lengths around 512..128Ki block boundaries", max_len, chunks, big_lens.len())));
     rep.set("values_for_text_form", json!(values.len()));
     rep.set("directory_trees", json!(tree_count));
     rep.set("directory_single_point_changes", json!(change_count));
